@@ -3,4 +3,4 @@
 From Coq Require Import Extraction ExtrOcamlBasic NArith ZArith List.
 From AHK Require Import Lib.Res Lib.ByteStr Model.Tlv Model.Steps Model.StepsBle.
 Separate Extraction Z.of_N Z.to_N N.of_nat N.to_nat
-  step_wire step_items mgmt_wire mgmt_items error_handler documented_class step_ble mgmt_ble.
+  step_wire step_items mgmt_wire mgmt_items error_handler documented_class step_ble mgmt_ble mgmt_ble_retry ble_attempts.
